@@ -1533,3 +1533,13 @@ def c20_q(ctx):
                       "state['{}'], which is {}: after this rejection the chain's slot holds its "
                       'initial value'.format(first.lineno, sorted(ks), key, why), fn=m,
                       node=ks.get(key, first))
+
+
+@obligation('C20-r', 'T2', 'no result buffer takes the dtype of a caller\'s array and then receives '
+            'computed values (shared sweep of C08-l, restricted to the modules this property is '
+            'anchored in; `*_like(x)` and `dtype=x.dtype` allocations)', floor=1,
+            necessary='chain states and likelihood values are stored as computed (numpy truncates floats silently when they are assigned into an '
+                      'integer array)')
+def c20_dtype(ctx):
+    from .base import inherited_dtype_obligation
+    inherited_dtype_obligation(ctx, ['elfi.methods.inference.bsl', 'elfi.methods.bsl.pdf_methods', 'elfi.methods.inference.parameter_inference'])
